@@ -296,6 +296,8 @@ impl Prop for C11 {
                 // the property is about prefixes of VALID files: an image that does not open
                 // intact has no baseline and is not in its domain
                 st.inc("intact_image_does_not_open");
+                // feeds the runner's reach guard (valid-by-construction images must open)
+                st.inc(&format!("image_does_not_open.{class}"));
                 return out;
             }
         }
